@@ -36,6 +36,7 @@
 #include <fcntl.h>
 #include <time.h>
 #include <sys/resource.h>
+#include <sys/time.h>
 using namespace muscle;
 typedef mj::Value J;
 
@@ -53,15 +54,18 @@ static void SetCur(const std::string & s)
    if (g_curFd >= 0) { ssize_t r = pwrite(g_curFd, g_curCase, g_curLen, 0); (void) r; int q = ftruncate(g_curFd, (off_t) g_curLen); (void) q; }
 }
 static void SetStage(const char * s) {strncpy(g_stage, s, sizeof(g_stage)-1); g_stage[sizeof(g_stage)-1] = 0;}
-static void OnAlarm(int)
+static void OnAlarm(int sig)
 {
    // the event loop did not return within the watchdog: the server hangs on this input.  Report and leave.
    static char b[12000];
-   int n = snprintf(b, sizeof(b), "{\"violations\":[\"HANG: the server's event loop did not return within %u s while %s\"],\"hang\":true,\"case\":%s}\n{\"summary\":true,\"hang\":true,\"cases\":%ld,\"violating_cases\":%ld}\n",
-                    g_watchdogSecs, g_stage, g_curLen ? g_curCase : "null", g_cases, g_violCases+1);
+   int n = snprintf(b, sizeof(b), "{\"violations\":[\"HANG: the server's event loop did not return within %u s of %s while %s\"],\"hang\":true,\"case\":%s}\n{\"summary\":true,\"hang\":true,\"cases\":%ld,\"violating_cases\":%ld}\n",
+                    (sig == SIGALRM) ? g_watchdogSecs*12 : g_watchdogSecs, (sig == SIGALRM) ? "wall-clock time" : "CPU time", g_stage, g_curLen ? g_curCase : "null", g_cases, g_violCases+1);
    ssize_t r = write(g_repFd, b, (size_t) n); (void) r;
    _exit(0);
 }
+// the watchdog: g_watchdogSecs of the process's CPU time (a spinning loop burns it; a machine busy with other work does not), and 12 times as much wall-clock time
+static void WatchdogOn(unsigned factor = 1) {struct itimerval it; memset(&it, 0, sizeof(it)); it.it_value.tv_sec = g_watchdogSecs*factor; (void) setitimer(ITIMER_PROF, &it, NULL); alarm(g_watchdogSecs*12*factor);}
+static void WatchdogOff() {struct itimerval it; memset(&it, 0, sizeof(it)); (void) setitimer(ITIMER_PROF, &it, NULL); alarm(0);}
 static double Now() {struct timespec ts; clock_gettime(CLOCK_MONOTONIC, &ts); return ts.tv_sec + ts.tv_nsec*1e-9;}
 
 // ---------------------------------------------------------------------------------------------------------- sessions and clients
@@ -112,7 +116,7 @@ struct World {
    {
       for (size_t i=0; i<cs.size(); i++) {cs[i]->gw.SetDataIO(DataIORef()); cs[i]->sock.Reset(); cs[i]->connected = false;}
       SetStage("tearing the server down");
-      alarm(g_watchdogSecs*2); for (int i=0; i<3; i++) (void) srv->ServerProcessLoop(0); srv->Cleanup(); alarm(0);
+      WatchdogOn(2); for (int i=0; i<3; i++) (void) srv->ServerProcessLoop(0); srv->Cleanup(); WatchdogOff();
       for (size_t i=0; i<cs.size(); i++) delete cs[i];
       delete srv;
    }
@@ -132,7 +136,7 @@ struct World {
    {
       for (size_t i=0; i<cs.size(); i++) cs[i]->Flush();
       const double t0 = Now();
-      alarm(g_watchdogSecs); (void) srv->ServerProcessLoop(0); alarm(0);
+      WatchdogOn(); (void) srv->ServerProcessLoop(0); WatchdogOff();
       const double dt = Now()-t0; if (dt > slowest) slowest = dt;
       pumps++;
       for (size_t i=0; i<cs.size(); i++) cs[i]->Recv();
@@ -203,7 +207,7 @@ static int Probe(int argc, char ** argv)
 int main(int argc, char ** argv)
 {
    CompleteSetupSystem css; SetConsoleLogLevel(MUSCLE_LOG_CRITICALERROR); setvbuf(stdout, NULL, _IONBF, 0);
-   signal(SIGALRM, OnAlarm); signal(SIGPIPE, SIG_IGN);
+   signal(SIGALRM, OnAlarm); signal(SIGPROF, OnAlarm); signal(SIGPIPE, SIG_IGN);
    if (getenv("SRV_WATCHDOG")) g_watchdogSecs = (unsigned) atoi(getenv("SRV_WATCHDOG"));
    SetStage("starting");
    const std::string mode = (argc > 1) ? argv[1] : "";
